@@ -178,12 +178,16 @@ func OwnIsCore(h OwnHistory) bool {
 	return true
 }
 
-// OwnDeepOps: the core operations that touch references shared with other variables (the core
-// alphabet without the two string operations, which interact with no other core operation).
+// OwnDeepOps: the 16 core operations used for the deepest histories: the core alphabet without
+// the two string operations (they interact with no other core operation), s=nil (subsumed by
+// reslicing and scope exit) and the two call-boundary operations p=g(p), defer-use(p) (their
+// effect is local to the call).
 func OwnDeepOps() []int {
 	var out []int
 	for i := 0; i < OwnCoreOps; i++ {
-		if n := OwnOps[i].Name; n != "str=str+x" && n != "b=[]byte(str)" {
+		switch OwnOps[i].Name {
+		case "str=str+x", "b=[]byte(str)", "s=nil", "p=g(p)", "defer-use(p)":
+		default:
 			out = append(out, i)
 		}
 	}
